@@ -14,6 +14,7 @@ import (
 func (k msgServer) ClosePositions(goCtx context.Context, msg *types.MsgClosePositions) (*types.MsgClosePositionsResponse, error) {
 	ctx := sdk.UnwrapSDKContext(goCtx)
 
+	verifPositionProcessed(ctx, "lev.close.start", "", 0)
 	// Handle liquidations
 	liqLog := []string{}
 	for _, val := range msg.Liquidate {
@@ -49,6 +50,7 @@ func (k msgServer) ClosePositions(goCtx context.Context, msg *types.MsgClosePosi
 				return nil, err
 			}
 		}
+		verifPositionProcessed(ctx, "lev.close", position.Address, position.Id)
 	}
 
 	// Handle stop loss
@@ -85,6 +87,7 @@ func (k msgServer) ClosePositions(goCtx context.Context, msg *types.MsgClosePosi
 				return nil, err
 			}
 		}
+		verifPositionProcessed(ctx, "lev.close", position.Address, position.Id)
 	}
 
 	ctx.EventManager().EmitEvent(sdk.NewEvent(types.EventClosePositions,
